@@ -1917,6 +1917,9 @@ func primRunCollider(id int, s *primShape, rng *rand.Rand, nrays, nballs int) pr
 			o := primLatticePoint(rng, mn, mx, s.dim, 2, 2)
 			if i >= 4 {
 				o = i3add([3]int{s.data[0], s.data[1], s.data[2]}, i3scale(d, -8))
+			} else if i >= 2 {
+				// from the middle of the axis (inside the shape): an odd number of hits
+				o = i3add([3]int{s.data[0], s.data[1], s.data[2]}, i3scale(ax, 2))
 			}
 			rays = append(rays, rq{o, d, exps[rng.Intn(len(exps))]})
 		}
